@@ -601,7 +601,14 @@ pub fn build_new_path(spec: &TreeSpec, r: &NewPath) -> B {
             B(v)
         }
         NewPath::Deep { sel, names, trail } => {
-            let mut ps = spec.paths();
+            // mostly below directories or links (which may lead to one); sometimes below anything
+            let mut ps = if trail % 3 != 0 {
+                let mut v = spec.dirs();
+                v.extend(spec.entries.iter().filter(|(_, n)| matches!(n, Node::Symlink { .. })).map(|(p, _)| p.clone()));
+                v
+            } else {
+                spec.paths()
+            };
             ps.push(B::new(""));
             let mut p = ps[pick(*sel, ps.len())].clone();
             for n in names {
